@@ -443,7 +443,11 @@ def fmm_vs_dense(op, dk, tk, dkw, tkw, two_grids=False, order=3):
     try:
         g = Z.grid_with_domains("octa")
         g2 = g
-        if two_grids:
+        if two_grids == "copy":
+            # a second grid with the SAME connectivity and domain indices but another geometry (rotated, stretched, displaced): equal in every table except the vertices
+            Rz = np.array([[0.8, -0.6, 0.0], [0.6, 0.8, 0.0], [0.0, 0.0, 1.0]])
+            g2 = SG.make_grid(Rz @ (np.array([[1.3], [0.7], [1.1]]) * g.vertices) + np.array([[4.0], [0.5], [0.3]]), g.elements, g.domain_indices)
+        elif two_grids:
             v, e = SG.tetra()
             g2 = SG.make_grid(0.7 * v + np.array([[3.0], [0.5], [0.2]]), e, np.array([1, 2, 2, 1], dtype="uint32"))
         dom = api.function_space(g, dk[0], dk[1], **dkw)
@@ -465,7 +469,7 @@ def ob_fmm_boundary(op, dk, tk, thorough):
     operator to 1e-11, for space options (whole grid, segments, support elements, boundary dofs, swapped normals) and a second test grid."""
     worst = 0.0
     combos = [(a, b, False) for a in range(len(VARIANTS)) for b in ((a,) if not thorough else range(len(VARIANTS)))] + [(0, 0, True), (1, 0, True)]
-    combos += [(5, 6, False), (6, 5, False)]
+    combos += [(5, 6, False), (6, 5, False), (0, 0, "copy"), (1, 1, "copy")]
     if not thorough:
         # domain and dual space on the same grid with DIFFERENT orientation options (swapped normals on one side only)
         combos += [(0, 4, False), (4, 1, False)]
